@@ -418,6 +418,7 @@ impl<F: NttFriendlyFieldElement, S: ParallelSumGadget<F, Mul>> Histogram<F, S> {
         if !length.is_multiple_of(chunk_length) {
             gadget_calls += 1;
         }
+        check_parallel_sum_lengths(chunk_length, gadget_calls)?;
 
         Ok(Self {
             length,
@@ -625,6 +626,7 @@ impl<F: NttFriendlyFieldElement, S: ParallelSumGadget<F, Mul>> MultihotCountVec<
 
         // Gadget calls is ⌈meas_length / chunk_length⌉
         let gadget_calls = meas_length.div_ceil(chunk_length);
+        check_parallel_sum_lengths(chunk_length, gadget_calls)?;
 
         Ok(Self {
             length: num_buckets,
@@ -870,6 +872,7 @@ impl<F: NttFriendlyFieldElement, S: ParallelSumGadget<F, Mul>> SumVec<F, S> {
         if flattened_len % chunk_length != 0 {
             gadget_calls += 1;
         }
+        check_parallel_sum_lengths(chunk_length, gadget_calls)?;
 
         Ok(Self {
             len,
@@ -1002,6 +1005,24 @@ where
     fn output_len(&self) -> usize {
         self.len
     }
+}
+
+/// Check that the lengths derived from a chunk length and a number of gadget calls (prover
+/// randomness, verifier and proof lengths of a `ParallelSum` based circuit) are representable.
+pub(crate) fn check_parallel_sum_lengths(
+    chunk_length: usize,
+    gadget_calls: usize,
+) -> Result<(), FlpError> {
+    gadget_calls
+        .checked_add(1)
+        .and_then(usize::checked_next_power_of_two)
+        .and_then(|p| (p - 1).checked_mul(2))
+        .and_then(|g| g.checked_add(2))
+        .and_then(|g| chunk_length.checked_mul(2).and_then(|c| c.checked_add(g)))
+        .map(|_| ())
+        .ok_or_else(|| {
+            FlpError::InvalidParameter("chunk_length or input length is too large".to_string())
+        })
 }
 
 /// Given a vector `data` of field elements which should contain exactly one entry, return the
